@@ -152,60 +152,61 @@ func vfC20Agree(c int) {
 		vfSame("clip-agrees", gg, ct)
 	}
 
-	s := simplify.DouglasPeucker(0.5)
-	var st orb.Geometry
-	switch t := cg().(type) {
-	case orb.Point:
-		st = t
-	case orb.MultiPoint:
-		st = t
-	case orb.LineString:
-		st = s.LineString(t)
-	case orb.MultiLineString:
-		st = s.MultiLineString(t)
-	case orb.Ring:
-		st = s.Ring(t)
-	case orb.Polygon:
-		st = s.Polygon(t)
-	case orb.MultiPolygon:
-		st = s.MultiPolygon(t)
-	case orb.Collection:
-		st = s.Collection(t)
-	case orb.Bound:
-		st = t
+	for si, s := range []orb.Simplifier{simplify.DouglasPeucker(0.5), simplify.VisvalingamThreshold(40), simplify.VisvalingamKeep(3), simplify.Radial(planar.Distance, 2.5)} {
+		var st orb.Geometry
+		switch t := cg().(type) {
+		case orb.Point:
+			st = t
+		case orb.MultiPoint:
+			st = t
+		case orb.LineString:
+			st = s.LineString(t)
+		case orb.MultiLineString:
+			st = s.MultiLineString(t)
+		case orb.Ring:
+			st = s.Ring(t)
+		case orb.Polygon:
+			st = s.Polygon(t)
+		case orb.MultiPolygon:
+			st = s.MultiPolygon(t)
+		case orb.Collection:
+			st = s.Collection(t)
+		case orb.Bound:
+			st = t
+		}
+		// the generic entry point returns nil for an empty result (and for a nil multi-point)
+		switch t := st.(type) {
+		case orb.MultiPoint:
+			if t == nil {
+				st = nil
+			}
+		case orb.LineString:
+			if len(t) == 0 {
+				st = nil
+			}
+		case orb.MultiLineString:
+			if len(t) == 0 {
+				st = nil
+			}
+		case orb.Ring:
+			if len(t) == 0 {
+				st = nil
+			}
+		case orb.Polygon:
+			if len(t) == 0 {
+				st = nil
+			}
+		case orb.MultiPolygon:
+			if len(t) == 0 {
+				st = nil
+			}
+		case orb.Collection:
+			if len(t) == 0 {
+				st = nil
+			}
+		}
+	vfSame("simplify-agrees-"+[]string{"dp", "vis-threshold", "vis-keep", "radial"}[si], s.Simplify(cg()), st)
 	}
-	// the generic entry point returns nil for an empty result (and for a nil multi-point)
-	switch t := st.(type) {
-	case orb.MultiPoint:
-		if t == nil {
-			st = nil
-		}
-	case orb.LineString:
-		if len(t) == 0 {
-			st = nil
-		}
-	case orb.MultiLineString:
-		if len(t) == 0 {
-			st = nil
-		}
-	case orb.Ring:
-		if len(t) == 0 {
-			st = nil
-		}
-	case orb.Polygon:
-		if len(t) == 0 {
-			st = nil
-		}
-	case orb.MultiPolygon:
-		if len(t) == 0 {
-			st = nil
-		}
-	case orb.Collection:
-		if len(t) == 0 {
-			st = nil
-		}
-	}
-	vfSame("simplify-agrees", s.Simplify(cg()), st)
 
 	// planar: a collection is the sum of its members of the highest dimension
 	if col, ok := cg().(orb.Collection); ok {
